@@ -66,6 +66,12 @@ func c06Run(c *vf.Case, msgs []wsMsg, events []wsEvent, wire []byte, cuts []int,
 			if t.Pump() > 0 {
 				continue
 			}
+			if c.Rng.Chance(1, 6) {
+				// the read is parked on the transport: raising the limit now must not disturb it
+				maxSize += c.Rng.Range(1, 200000)
+				s.SetMaxMessageSize(maxSize)
+				c.Count("limit_raised_while_a_read_was_parked", 1)
+			}
 			if !feed() {
 				return
 			}
